@@ -7,4 +7,4 @@ Extraction "model.ml" mkNumOps nhalf mkVar mkCfg mkSt mkOut mkM rstep restore ru
   hist_grid hist_p hist_diff hist_energy hist_forces
   harm_potential_d2 v3_dist2 uv_dist2 q_dist2 v3_interp uv_interp
   mkG mkGS grun gmstep ginit_m gstep grestore gplace uv_constrain q_constrain
-  mkTI mkIn ti_run ti_mstep ti_init_m.
+  mkTI mkIn ti_run ti_mstep ti_init_m rediff.
